@@ -12,6 +12,12 @@ pub struct Captured {
     pub server: Mutex<Vec<Event>>,
 }
 
+impl Captured {
+    pub fn side(&self, server: bool) -> std::sync::MutexGuard<'_, Vec<Event>> {
+        if server { self.server.lock().unwrap() } else { self.client.lock().unwrap() }
+    }
+}
+
 pub struct CaptureExporter {
     pub sink: Arc<Captured>,
     pub server: bool,
